@@ -8,7 +8,7 @@ F = spec/conc/Safepoint.tla, P = spec/conc/AbstractStw.tla.
 4. I->S: event logs of real multi-threaded Dora executables (both code generators, gc-stress) validated by TLC
    against SafepointTrace.tla; rejections adjudicated against AbstractStwTrace.tla.
 """
-import json, os, sys
+import json, os, sys, time
 from common import *
 import progs, traces
 from checks.c12 import gen_behaviours, vh_lines, validate_trace, negative_controls, handle
@@ -52,7 +52,7 @@ def run(ctx):
 
     # I->S on real executables
     build_repo(boots=True)
-    nprog = 2 if ctx.quick else 8
+    nprog = 1 if ctx.quick else 8
     flagsets = ["--gc-stress --disable-tlab", ""] if ctx.quick else ["--gc-stress --disable-tlab", "--gc-stress-minor", "", "--gc-worker=4 --gc-stress"]
     first = True
     for i in range(nprog):
@@ -65,7 +65,7 @@ def run(ctx):
             if b is None:
                 raise ToolError(f"workload {src} does not compile with {backend}: {msg}")
             for fi, flags in enumerate(flagsets):
-                if ctx.quick and (i + fi + (backend == "boots")) % 2 == 1:
+                if ctx.quick and (fi + (backend == "boots") + ctx.seed) % 2 == 0:
                     continue
                 trace = os.path.join(ctx.work, f"w{seed}_{backend}_{fi}.ndjson")
                 r = progs.run_prog(exe, flags=flags, env={"DORA_VERIF_TRACE": trace}, timeout=120)
@@ -95,7 +95,7 @@ def run(ctx):
                         ctx.add("traces_validated_against_impl", 1)
                         ctx.add("trace_events", len(view))
                         ctx.add("stw_operations_in_traces", sum(1 for e in view if e["ev"] == "op_begin"))
-                        if first:
+                        if first and len(view) >= 200 and any(e["ev"] == "disarm" for e in view):
                             first = False
                             ctx.sample({"trace_head": view[:12]})
                             do_negative_controls(ctx, os.path.basename(cfg), vfile)
@@ -119,6 +119,8 @@ def storms(ctx):
     """stop-the-world storms: back-to-back operations requested by several threads. Judged by the property layer only
     (AbstractStwTrace + clean completion); the budget grows when the faithful model reported drift (DESIGN 2.8)."""
     escalate = bool(ctx.drift)
+    t_start = time.time()
+    budget = 60 if (ctx.quick and not escalate) else 240 if ctx.quick else 900      # seconds for all storms
     plan = [(3, 300, 1)] if (ctx.quick and not escalate) else [(3, 400, 2), (4, 1500, 3)] if ctx.quick else [(3, 400, 2), (4, 2000, 4), (6, 500, 2)]
     for threads, iters, reps in plan:
         seed = ctx.seed * 1000 + threads
@@ -133,6 +135,9 @@ def storms(ctx):
             if b is None:
                 raise ToolError(f"storm workload does not compile: {msg}")
             for rep in range(reps):
+                if time.time() - t_start > budget:
+                    ctx.extra["storm_budget_exhausted"] = True
+                    return
                 trace = exe + f"_{rep}.ndjson"
                 what = f"stop-the-world storm threads={threads} iters={iters} backend={backend} gc={gc or 'default'} run={rep}"
                 r = progs.run_prog(exe, env={"DORA_VERIF_TRACE": trace}, timeout=300)
